@@ -126,4 +126,13 @@ theorem evalExemptions_eq (root : ℕ → Option F) (num : List (ℕ × F)) (g x
   rw [foldl_mul_sub, one_mul, List.map_map, prod_map_range']
   rfl
 
+/-- `evaluate_at` of a boundary constraint whose polynomial is not a single constant evaluates the
+    polynomial at `x * offset` -/
+theorem value_of_not_singleton (O : Ops F) (c : BConstraint F) (h : ∀ v, c.poly ≠ [v]) (x : F) :
+    c.value O x = polyEval O c.poly (O.mul x c.offsetElem) := by
+  unfold BConstraint.value
+  split
+  · rename_i v hv; exact absurd hv (h v)
+  · rfl
+
 end WinterProofs.C16L
